@@ -542,7 +542,7 @@ def inplace_cases(draw, op, fam, tier):
         sx, sr, lab = tuple(draw(gen.shapes(max_rank=3, max_side=3))), (), 'scalar'
     rc = (rk in ref.COMPLEX_KINDS) or (rk == 'utpm' and draw(st.integers(0, 2)) == 0)
     # the result must be castable into the left operand: complex right operand => complex left operand
-    xc = True if rc else draw(st.integers(0, 2)) == 0
+    xc = True if rc else draw(st.integers(0, 1)) == 0
     case['L'] = {'kind': 'utpm', 'data': draw(utpm_data(D, P, sx, regime, xc))}
     if rk == 'utpm':
         case['R'] = {'kind': 'utpm', 'data': draw(utpm_data(D, P, sr, regime, rc, divisor=(op == 'truediv')))}
@@ -567,7 +567,7 @@ def pow_cases(draw, kind, tier):
     if kind == 'int':
         regime = _regime(draw)
         case['regime'] = regime
-        case['r'] = draw(st.integers(0, 5))
+        case['r'] = draw(st.sampled_from([0, 1, 2, 2, 3, 3, 4, 5]))
         case['rk'] = 'pyint'
         if regime == 'exact':
             case['x'] = draw(utpm_data(D, P, shape, 'exact', xc))
@@ -577,11 +577,11 @@ def pow_cases(draw, kind, tier):
     elif kind in ('negint', 'npint'):
         case['regime'] = 'float'
         if kind == 'negint':
-            case['r'] = draw(st.integers(-4, -1))
+            case['r'] = draw(st.sampled_from([-1, -2, -3, -4]))
             case['rk'] = 'pyint'
             zero_ok = False
         else:
-            case['r'] = draw(st.integers(-3, 5))
+            case['r'] = draw(st.sampled_from([-3, -2, -1, 0, 1, 2, 3, 4, 5]))
             case['rk'] = 'np.int64'
             zero_ok = case['r'] >= 0
             if zero_ok and KF.is_open(KF_POWNPINT):
@@ -752,17 +752,17 @@ def buckets(tier):
                 heavy = (op in ('mul', 'truediv'))
                 bl.append(Bucket('%s:%s:%s' % (op, lk, rk),
                                  (lambda op=op, lk=lk, rk=rk: binary_cases(op, lk, rk, tier)), prop,
-                                 {'quick': 40, 'thorough': 700}, nontrivial=_nontrivial, classes=_classes,
+                                 {'quick': 120, 'thorough': 2000}, nontrivial=_nontrivial, classes=_classes,
                                  weight=(3.0 if heavy else 1.0) * _heavy(lk, rk)))
     for op in OPS:
         for fam in ('utpm', 'pyscalar', 'npscalar', 'ndarray', 'alias'):
             bl.append(Bucket('i%s:%s' % (op, fam), (lambda op=op, fam=fam: inplace_cases(op, fam, tier)), prop,
-                             {'quick': 60, 'thorough': 900}, nontrivial=_nontrivial, classes=_classes,
+                             {'quick': 160, 'thorough': 2500}, nontrivial=_nontrivial, classes=_classes,
                              weight=3.0 if fam in ('utpm', 'alias') else 1.5))
     for kind in ('int', 'negint', 'npint', 'real', 'complex', 'rpow', 'utpm'):
         slow = kind in ('real', 'complex', 'rpow', 'utpm')
         bl.append(Bucket('pow:' + kind, (lambda kind=kind: pow_cases(kind, tier)), prop,
-                         {'quick': 50 if slow else 60, 'thorough': 500 if slow else 900},
+                         {'quick': 80 if slow else 150, 'thorough': 600 if slow else 2500},
                          nontrivial=_nontrivial, classes=_classes,
                          shards={'quick': 1, 'thorough': 3 if slow else 1}, weight=12.0 if slow else 4.0))
     return bl
